@@ -372,6 +372,17 @@ def ancestors(node: ast.AST) -> Iterable[ast.AST]:
         p = parent(p)
 
 
+def qualname(node) -> str:
+    """Dotted Class.func name of the innermost definitions enclosing `node` ('<module>' at top level)."""
+    parts = []
+    n = node
+    while n is not None:
+        if isinstance(n, (ast.FunctionDef, ast.AsyncFunctionDef, ast.ClassDef)):
+            parts.append(n.name)
+        n = parent(n)
+    return ".".join(reversed(parts)) or "<module>"
+
+
 def enclosing_function(node: ast.AST) -> Optional[ast.FunctionDef]:
     for a in ancestors(node):
         if isinstance(a, (ast.FunctionDef, ast.AsyncFunctionDef, ast.Lambda)):
